@@ -1,6 +1,6 @@
 //! Compile-time clause of C05 (Send + Sync). If `sim_c05` builds and this does not, the only
 //! difference is the `T: Send + Sync` bound on the generated iterator types.
-#[allow(dead_code, unused_imports, non_camel_case_types, clippy::all)]
+#[allow(warnings, clippy::all)]
 mod corpus {
     include!(concat!(env!("SIM_CORPUS_DIR"), "/c05.rs"));
 }
